@@ -216,3 +216,6 @@ def _cube_level(res, cube, o, weighted):
         exp = grid(lambda s, oth: o.total(s, (), True, mr_other=oth))
         ok, det = cmp.same(got.value, exp, exact=True)
         res.check("cube_level", ok, "cube/weighted_counts", det)
+
+TECHNIQUE = "reference-model runtime monitor (public reads vs respondent-level oracle)"
+DESIGN_REF = "DESIGN.md 4 C01; 2.1-2.3"
